@@ -39,6 +39,13 @@ def run(ctx: Ctx):
   for r in (r1, r2, r3, r4, r5, r6, r7, r10, r11, r13, r14, r15, r16, r17, r18, r20, r22):
     ctx.guard(r)
   from mlmverif.props import c03
+  from mlmverif.props import c03 as _c03x, c17 as _c17x
+  ctx.include('R-C16-23', '"the same multiset of output batches": in the interleaved runner only the LAST stage may drop its batch'
+              ' outputs when the caller asks for the aggregate alone (R-C03-12) — an aggregating stage in the middle that'
+              ' does so feeds None into the next stage', _c03x.r12, min_instances=1)
+  ctx.include('R-C16-24', '"the same aggregate result": an interleaved stage reaches its workers PICKLED — __getstate__ of the operator'
+              ' classes keeps every declared field of the instance\'s own class (R-C17-5), so TreeAggregateFn.disable_slicing'
+              ' survives and no slice keys are invented on the workers', _c17x.r5, min_instances=1)
   from mlmverif.props import c14 as _c14
   ctx.include('R-C16-21', '"delivers exactly one final aggregate result": a worker iterator that returned NOTHING (a stage without'
               ' aggregation) must end on the master with no return value, not with `None` — every conversion of an exhaustion'
@@ -879,6 +886,8 @@ from mlmverif.selfcheck import B, OK  # noqa: E402
 _T = 'chainables/transform.py'
 _O = 'chainables/orchestrate.py'
 VARIANTS = [
+    B('aggregating-middle-stage-drops-its-outputs', 'chainables/orchestrate.py',
+      "        aggregate_only=aggregate_only and is_last_stage,", "        aggregate_only=aggregate_only and bool(transform.agg_fns),", 'R-C16-23'),
     B('busy-worker-with-spare-parallelism-gets-a-shard', 'chainables/courier_worker.py',
       "        workers: list[Worker] = list(set(self.idle_workers()) - running_workers)",
       "        workers: list[Worker] = [w for w in set(self.idle_workers()) if w not in running_workers or w.max_parallelism > 1]", 'R-C16-22'),
